@@ -249,6 +249,11 @@ def check(run: Run) -> None:
             if q.split("::")[-1] not in ("bind", "rebind"):
                 run.finding("C10.g", f"key-source:{q}", f"{q} stamps the synthetic key output outside bind", loc=f"{rel}:{line}")
 
+    with run.obligation("C10.j", "K3+K6", "per-key entries live in SLOTS mirroring the key set: every scan over slot ids is bounded by the slot capacity, "
+                        "never by the number of live entries (a surviving key above a removed one must keep its child)"):
+        R.slot_bounds(run, "C10.j", ["src/hgraph/runtime/map_node.cpp", "src/hgraph/runtime/mesh_node.cpp", "src/hgraph/runtime/nested_graph_storage.h",
+                                     "include/hgraph/runtime/nested_graph_storage.h"], floor=6)
+
 
 VARIANTS = [
     {"id": "h-marker-reset-before-test", "expect": "C10.h", "edits": [{"file": MAP, "find": "                if (schedule.pulled)\n                {\n                    if (entry->schedule_context.pulled_when != schedule.when)\n                    {\n                        continue;\n                    }\n                    entry->schedule_context.pulled_when = MAX_DT;\n                }", "replace": "                if (schedule.pulled)\n                {\n                    entry->schedule_context.pulled_when = MAX_DT;\n                    if (entry->schedule_context.pulled_when != schedule.when)\n                    {\n                        continue;\n                    }\n                }"}]},
